@@ -238,6 +238,13 @@ class Harness(object):
             if named != not_loaded:
                 return self.report(tag or "error_names_wrong_cores", "error names %r; cores not loaded are %r" % (
                     short(named), short(not_loaded)), case)
+            # ... and so does its message (what a user sees): every "(x, y, p)" in it is an unloaded core and none is left out
+            import re as _re
+            in_msg = set((int(a_), int(b_), int(c_)) for a_, b_, c_ in _re.findall(r"\((\d+), (\d+), (\d+)\)", str(raised)))
+            unl = set((c_[0], c_[1], p_) for t_ in not_loaded.values() for c_, ps_ in t_.items() for p_ in ps_)
+            if in_msg != unl:
+                return self.report(tag or "error_names_wrong_cores", "the error's message names the cores %r; the cores not loaded are %r" % (
+                    sorted(in_msg), sorted(unl)), case)
         else:
             want_state = _scamp.ST_WAIT if wait else _scamp.ST_RUN
             for (chip, p), label in sorted(requested.items()):
